@@ -747,7 +747,10 @@ class SymExec:
         if isinstance(node, ast.AugAssign):
             cur = self.eval(_as_load(node.target), st, func, depth)
             rhs = self.eval(node.value, st, func, depth)
-            v = self.binop(node.op, cur, rhs, st)
+            if isinstance(node.op, ast.Add) and isinstance(cur, Tup) and cur.kind == "list" and isinstance(rhs, Sym):
+                v = Tup([*cur.items, Star(rhs)], "list")  # list += iterable  ==  list.extend(iterable)
+            else:
+                v = self.binop(node.op, cur, rhs, st)
             self.assign(node.target, v, st, func, depth)
             return [st]
         if isinstance(node, ast.Expr):
